@@ -10,7 +10,7 @@ from __future__ import annotations
 import copy
 
 from happysimulator.components.rate_limiter.policy import (
-    AdaptivePolicy, FixedWindowPolicy, LeakyBucketPolicy, SlidingWindowPolicy, TokenBucketPolicy)
+    AdaptivePolicy, FixedWindowPolicy, LeakyBucketPolicy, RateAdjustmentReason, SlidingWindowPolicy, TokenBucketPolicy)
 from happysimulator.components.rate_limiter.rate_limited_entity import RateLimitedEntity
 from happysimulator.core.entity import Entity
 from happysimulator.core.simulation import Simulation
@@ -123,6 +123,80 @@ def kernels(sym, tier):
     return r
 
 
+def _feedback(p, kind, now):
+    if kind == 1:
+        p.record_success(now)
+    elif kind == 2:
+        p.record_failure(now)
+    elif kind == 3:
+        p.record_failure(now, RateAdjustmentReason.TIMEOUT)
+
+
+_ADV_NS = [0, 1, 250_000_000, S, 3 * S]
+
+
+def adaptive_history(sym, tier):
+    """AdaptivePolicy driven only through its public calls: drain n0 tokens, feedback, optional
+    time_until_available query, idle gap, feedback, then a burst of acquisitions at one instant.
+    After a refill that follows the last rate change the bucket holds at most rate*window tokens,
+    so the burst admits at most floor(rate*window); the whole history admits at most the initial
+    bucket plus the integral of the rate."""
+    r = Result()
+    p = AdaptivePolicy(initial_rate=4.0, min_rate=1.0, max_rate=8.0, increase_step=2.0, decrease_factor=0.5, window_size=1.0)
+    t = 0
+    gaps, rates = [], []
+    total = 0
+    n0 = sym.choice("drain", 5)
+    for _ in range(n0):
+        if p.try_acquire(Instant(t)):
+            total += 1
+    last_change = None
+    for phase in range(2):
+        fb = sym.choice(f"feedback{phase}", 4)
+        before = p.current_rate
+        _feedback(p, fb, Instant(t))
+        if p.current_rate != before:
+            last_change = t
+        if not (p.min_rate <= p.current_rate <= p.max_rate):
+            r.bad("adaptive_rate_within_min_max", p.current_rate)
+        if sym.choice(f"query{phase}", 2):
+            w = p.time_until_available(Instant(t))
+            if w.nanoseconds < 0:
+                r.bad("time_until_available_non_negative", t, w.nanoseconds)
+            if (w == Duration.ZERO) != copy.deepcopy(p).try_acquire(Instant(t)):
+                r.bad("zero_wait_iff_acquire_succeeds_now", {"t_ns": t, "wait_ns": w.nanoseconds, "tokens": p.tokens})
+        gap = _ADV_NS[sym.choice(f"gap{phase}", len(_ADV_NS))]
+        gaps.append(gap)
+        rates.append(p.current_rate)
+        t += gap
+        if phase == 0:
+            mid = sym.choice("mid_acquires", 3)
+            for _ in range(mid):
+                if p.try_acquire(Instant(t)):
+                    total += 1
+    rate = p.current_rate
+    burst = 0
+    for _ in range(9):
+        if p.try_acquire(Instant(t)):
+            burst += 1
+    total += burst
+    if last_change is not None and t > last_change:
+        r.wit.add("burst_after_rate_change")
+        if burst > rate * 1.0 + 1e-9:
+            r.bad("burst_at_one_instant_at_most_rate_times_window", {"rate": rate, "burst": burst, "t_ns": t, "last_rate_change_ns": last_change})
+    if burst > 8:
+        r.bad("burst_at_most_max_rate_times_window", burst)
+    # refill is lazy and credits an idle gap at the rate in force when it is next evaluated, so each gap is
+    # credited at the highest rate from its start to the end of the history (the property's bound is the bucket bound of the current rate)
+    credit = 4.0 + gaps[0] * max(rates) / 1e9 + gaps[1] * rates[1] / 1e9
+    if total > credit + 1e-6:
+        r.bad("admissions_at_most_initial_bucket_plus_rate_times_elapsed", {"admitted": total, "credit": credit})
+    if rate < 4.0:
+        r.wit.add("rate_lowered")
+    r.obs = {"burst": burst, "rate": rate, "total": total}
+    return r
+
+
 def kernels_classify(clause, draws, obs):
     return None
 
@@ -224,6 +298,13 @@ HARNESSES = [
       bounds=lambda tier: {"calls": 4 if tier == "quick" else 5, "instants": "k * step + {-1,0,+1} ns, k advancing by 0..3 per call",
                            "step_ns": STEP_NS, "configurations": "token(cap 2, 2/s) leaky(2/s) sliding(0.3 s, 2) fixed(0.1 s, 2) adaptive(4/s in [1,8], feedback before call 1)"},
       outside=["instants off the table", "other parameter values", "k > 5 calls"]),
+    H(name="c10_adaptive_history", fn=adaptive_history, shape="S", budget=lambda tier: 900.0 if tier == "quick" else 3000.0,
+      cubes=lambda tier: [{"drain": a, "feedback0": b} for a in range(5) for b in range(4)],
+      require=lambda tier: ["burst_after_rate_change", "rate_lowered"] if True else [],
+      functions=["AdaptivePolicy.try_acquire/time_until_available/_refill/record_success/record_failure"],
+      bounds=lambda tier: {"history": "drain 0..4 at t=0; 2 x (feedback none/success/failure/timeout, optional time_until_available, idle gap from table); 0..2 acquires between; burst of 9 at one instant",
+                           "gaps_ns": _ADV_NS, "configuration": "4/s in [1,8], step 2, factor 0.5, window 1 s"},
+      outside=["other parameter values", "gaps off the table", "more than two rate changes"]),
     H(name="c10_entity", fn=entity, shape="S", budget=lambda tier: 900.0 if tier == "quick" else 3000.0,
       cubes=lambda tier: [{"policy": a, "queue_capacity_minus_1": b} for a in range(3) for b in range(2)],
       require=lambda tier: ["queued", "dropped"], classify=entity_classify,
